@@ -378,35 +378,48 @@ func runC15(e *sim.Env) {
 	failures, failedEvents, attemptEvents := 0, 0, 0
 	gaveUpAt := int64(-1)
 	type cycle struct {
-		fails    []int64 // close time, then the reconnect_error times
+		fails    []int64 // close time (or -1 when it cannot be told), then the reconnect_error times
 		attempts []int64
 	}
+	// The events carry the attempt number: a cycle starts with attempt 1. A reconnect_error belongs to
+	// the cycle that was running at its time; the close that started a cycle is the one recorded between
+	// the previous attempt and this cycle's first one (a close handler that lagged behind its own first
+	// attempt leaves that pair unmeasured).
 	var cycles []*cycle
-	var cur *cycle
+	var errs []int64
+	prevClose := int64(-1) // the close recorded since the last attempt, if any
 	for _, ev := range evs {
 		switch ev.Kind {
 		case "close":
-			cur = &cycle{fails: []int64{ev.At}}
-			cycles = append(cycles, cur)
+			prevClose = ev.At
 		case "reconnect_attempt":
 			attemptEvents++
-			if cur != nil {
-				cur.attempts = append(cur.attempts, ev.At)
+			if ev.Reason == "1" || len(cycles) == 0 {
+				cycles = append(cycles, &cycle{fails: []int64{prevClose}})
 			}
+			prevClose = -1
+			c := cycles[len(cycles)-1]
+			c.attempts = append(c.attempts, ev.At)
 		case "reconnect_error":
 			failures++
-			if cur != nil {
-				cur.fails = append(cur.fails, ev.At)
-			}
+			errs = append(errs, ev.At)
 		case "reconnect_failed":
 			failedEvents++
 			gaveUpAt = ev.At
 		}
 	}
+	sort.Slice(errs, func(i, j int) bool { return errs[i] < errs[j] })
+	for i, c := range cycles {
+		for _, t := range errs {
+			if t >= c.attempts[0] && (i+1 == len(cycles) || t < cycles[i+1].attempts[0]) {
+				c.fails = append(c.fails, t)
+			}
+		}
+	}
 	for _, c := range cycles {
 		for k, at := range c.attempts {
-			if k >= len(c.fails) {
-				break
+			if k >= len(c.fails) || c.fails[k] < 0 || c.fails[k] > at {
+				continue // no failure recorded for this attempt
 			}
 			e.Check()
 			delay := at - c.fails[k]
